@@ -856,6 +856,9 @@ class MetadataSchema:
     """
 
     def __init__(self, schema: Mapping[str, Any] | None) -> None:
+        # Keep a private copy: the caller's dict may be modified later, which must
+        # not change how this schema validates, encodes or prints.
+        schema = copy.deepcopy(schema)
         self._schema = schema
         self._unmodified_schema = schema
         self._bypass_validation = False
